@@ -36,7 +36,7 @@ func cmdParse(args []string) {
 	out := fs.String("out", "", "output prefix (mismatches)")
 	fs.Parse(args)
 	w := newShardWriter(*out, 1)
-	n, bad := 0, 0
+	n, bad, div := 0, 0, 0
 	for _, c := range readNDJSON(*in) {
 		var toks []gmars.VerifToken
 		for _, x := range c["in"].([]interface{}) {
@@ -83,13 +83,22 @@ func cmdParse(args []string) {
 		// on error the real parser returns no lines; only the error itself is compared then
 		ok := pan == "" && gotErr == wantErr && (wantErr || strings.Join(got, "\n") == strings.Join(want, "\n"))
 		if !ok {
-			bad++
-			w.line(fmt.Sprintf(`{"in":%s,"want":%s,"wanterr":%v,"got":%s,"goterr":%v,"panic":%s,"case":%s}`, mustJSON(c["in"]), strsJSON(want), wantErr, strsJSON(got), gotErr, jq(pan), mustJSON(c)))
+			// only a panic is a violation of the property (C05); other source lines are a divergence between model and code
+			kind := "divergence"
+			if pan != "" {
+				kind = "property"
+				bad++
+			} else {
+				div++
+			}
+			if pan != "" || div <= 25 {
+				w.line(fmt.Sprintf(`{"kind":%q,"in":%s,"want":%s,"wanterr":%v,"got":%s,"goterr":%v,"panic":%s,"case":%s}`, kind, mustJSON(c["in"]), strsJSON(want), wantErr, strsJSON(got), gotErr, jq(pan), mustJSON(c)))
+			}
 			if bad >= 40 {
 				break
 			}
 		}
 	}
 	w.close()
-	fmt.Printf(`{"cases":%d,"mismatches":%d}`+"\n", n, bad)
+	fmt.Printf(`{"cases":%d,"mismatches":%d,"divergences":%d}`+"\n", n, bad, div)
 }
